@@ -652,5 +652,28 @@ func genC02(r *Runner) {
 	}
 	runJobs(len(jj), func(i int) { runJwsJob(r, jj[i], i) })
 	runJobs(len(cj), func(i int) { runCoseJob(r, cj[i], i) })
+	// the tables as the exported functions answer them: the hash of every algorithm number, the algorithm of every key
+	// specification, the key specification of every key
+	for _, a := range []int{0, 1, 2, 3, 4, 5, 6, 7, 8, 9, 10, 16, 37, 255, 256, 1 << 20} {
+		r.Submit(&Case{ID: fmt.Sprintf("hash-%d", a), K: "algtable", Class: "table:hash", In: map[string]any{"q": "hash", "alg": a},
+			Impl: map[string]any{"hash": int(signature.Algorithm(a).Hash())}, Replay: map[string]any{"call": fmt.Sprintf("signature.Algorithm(%d).Hash()", a)}})
+	}
+	for t := 0; t <= 3; t++ {
+		for _, sz := range []int{0, 1, 224, 255, 256, 257, 384, 512, 521, 1024, 2047, 2048, 2049, 2056, 3072, 4096, 8192} {
+			r.Submit(&Case{ID: fmt.Sprintf("sigalg-%d-%d", t, sz), K: "algtable", Class: "table:sigalg", In: map[string]any{"q": "sigalg", "type": t, "size": sz},
+				Impl:   map[string]any{"alg": int(signature.KeySpec{Type: signature.KeyType(t), Size: sz}.SignatureAlgorithm())},
+				Replay: map[string]any{"call": fmt.Sprintf("signature.KeySpec{Type: %d, Size: %d}.SignatureAlgorithm()", t, sz)}})
+		}
+	}
+	for _, k := range keys {
+		leaf := getIdentity(k, 2).chain[0]
+		ks, err := signature.ExtractKeySpec(leaf)
+		impl := map[string]any{"ok": err == nil}
+		if err == nil {
+			impl["type"], impl["size"] = int(ks.Type), ks.Size
+		}
+		r.Submit(&Case{ID: "keyspec-" + k, K: "algtable", Class: "table:keyspec", In: map[string]any{"q": "keyspec", "key": absKey(leaf.PublicKey)},
+			Impl: impl, Replay: map[string]any{"call": "signature.ExtractKeySpec(leaf certificate with key " + k + ")"}})
+	}
 	r.sum.Exhaustive = true
 }
